@@ -467,6 +467,15 @@ def m_wrapping_add(I, st, args, c, dest, target, span):
 @model("core::num::<impl usize>::checked_sub")
 def m_checked_sub(I, st, args, c, dest, target, span):
     a, b = I.force(st, args[0]), I.force(st, args[1])
+    # slice layout (language guarantee): a slot of the node vector lies at or above its start; another allocation lies entirely below or entirely above it
+    if a.t.sym and b.t.sym == ("addr0",) and a.t.k == 1 and b.t.k == 1 and a.t.c == 0 and b.t.c == 0:
+        if a.t.sym[0] == "addr":
+            return some(VInt(Lin(0, ("off", a.t.sym[1]), 1), 64, False))
+        if a.t.sym[0] == "addrf":
+            if I.cmp(st, a.t, b.t, "Lt"):
+                return none()
+            st.bounds[("offf",)] = (0, ISIZE_MAX)
+            return some(VInt(Lin(0, ("offf",), 1), 64, False))
     if I.cmp(st, a.t, b.t, "Lt"):
         return none()
     return some(VInt(I.add_terms(a.t, b.t, -1), 64, False))
@@ -1012,6 +1021,13 @@ def m_as_ptr_range(I, st, args, c, dest, target, span):
     if not is_nodes_vec(I, st, args[0]):
         raise Undecided("as_ptr_range of an unknown slice")
     return VStruct(RANGE, (("start", VOpaque("nodes-ptr-start")), ("end", VOpaque("nodes-ptr-end"))))
+
+
+@model("alloc::vec::Vec::<T, A>::as_ptr", "core::slice::<impl [T]>::as_ptr")
+def m_as_ptr(I, st, args, c, dest, target, span):
+    if not is_nodes_vec(I, st, args[0]):
+        raise Undecided("as_ptr of an unknown vector")
+    return VOpaque("nodes-ptr-start")
 
 
 @model("core::ops::range::Range::<Idx>::contains")
